@@ -55,7 +55,7 @@ fn drain(rx: &mut Receiver<PeerEvent>, idx: &HashMap<PeerId, i64>) -> Vec<Value>
     out
 }
 
-async fn replay_one(w: &mut World, ids: &HashMap<i64, PeerId>, idx: &HashMap<PeerId, i64>, own: i64, beh: &Value) -> (usize, Option<Value>) {
+async fn replay_one(w: &mut World, ids: &HashMap<i64, PeerId>, idx: &HashMap<PeerId, i64>, own: i64, beh: &Value, mut pause: bool) -> (usize, Option<Value>) {
     let ap = DirectActivePeers::new(4096);
     let (mut rx0, snap0) = ap.subscribe();
     if !snap0.is_empty() {
@@ -80,6 +80,12 @@ async fn replay_one(w: &mut World, ids: &HashMap<i64, PeerId>, idx: &HashMap<Pee
                     conns.insert(gid, c);
                 }
                 let origin = if s["origin"] == "in" { ConnectionOrigin::Inbound } else { ConnectionOrigin::Outbound };
+                // how long the stored connection has been up plays no part in what an add decides: in a
+                // few behaviours the next connection for a listed peer arrives seconds (of real time) later
+                if pause && ap.stored(&ids[&peer]).is_some() {
+                    pause = false;
+                    tokio::time::sleep(std::time::Duration::from_millis(2_300)).await;
+                }
                 let kept = match ap.add(&ids[&own], conns[&gid].clone(), origin) {
                     Ok(k) => k,
                     Err(e) => return (evals, fail("add failed", json!(e.to_string()))),
@@ -197,7 +203,7 @@ pub fn replay(a: &Args) -> i32 {
                         }
                         worlds.insert(own, World { server, addr, clients, keep: Vec::new() });
                     }
-                    let (e, m) = replay_one(worlds.get_mut(&own).unwrap(), &ids, &idx, own, beh).await;
+                    let (e, m) = replay_one(worlds.get_mut(&own).unwrap(), &ids, &idx, own, beh, replayed == 1 || replayed == 9).await;
                     replayed += 1;
                     evals += e;
                     if let Some(m) = m {
